@@ -37,6 +37,7 @@ _TID = re.compile(r"^t\d+$")
 PROF = gen.profile(
     after=False, invoke=False, raising_guards=True, null_transitions=True, wildcards=True, long_keys=True,
     p_handler=40, p_guard=60, nested_builtins=False, final_under_root=True, max_iterations=30,
+    p_composite_guard=30,   # candidates of one list whose guards share a type (not/and/or) but not the operands
 )
 
 
